@@ -239,6 +239,74 @@ Fixpoint agent_loop (sid : N) (link : option N) (aok : ck -> bool) (stateless : 
         end
     end.
 
+(* ---------- the tool budget's accounting: WHERE `tool_call_count += 1` sits in the `for call in tool_calls` loop ----------
+   AcctEveryCall       right after the bound test, before the tool_choice refusal branch: every drained call is
+                       paid for, refused or not (session.rs today);
+   AcctDispatchedOnly  only in the branches that dispatch a tool: a call refused by tool_choice is free.
+   Gen/RunLifecycleGen.v re-reads the placement from session.rs on every run (gen_acct). *)
+Inductive acct := AcctEveryCall | AcctDispatchedOnly.
+Definition acct_all (ac : acct) : bool := match ac with AcctEveryCall => true | AcctDispatchedOnly => false end.
+Definition acct_eqb (a b : acct) : bool :=
+  match a, b with AcctEveryCall, AcctEveryCall | AcctDispatchedOnly, AcctDispatchedOnly => true | _, _ => false end.
+Definition ACCT : acct := AcctEveryCall.
+Definition acct_counts (ac : acct) (c : call) : bool :=
+  match ac with AcctEveryCall => true | AcctDispatchedOnly => c_allowed c end.
+
+(* run_calls / agent_loop with the accounting as a parameter (at AcctEveryCall they ARE run_calls / agent_loop:
+   run_calls_a_every / agent_loop_a_every in the proofs) *)
+Fixpoint run_calls_a (ac : acct) (sid : N) (link : option N) (aok : ck -> bool) (calls : list call)
+         (count seq : N) : list ev * N * N * bool :=
+  match calls with
+  | [] => ([], seq, count, false)
+  | c :: rest =>
+      if MAX_TOOL_CALLS <=? count then ([], seq, count, true)
+      else
+        let ks := if c_allowed c then tool_kinds (c_tool c) else rejected_kinds in
+        let se := if c_allowed c && c_lock c then side_effects sid link aok else [] in
+        match run_calls_a ac sid link aok rest (if acct_counts ac c then count + 1 else count) (seq + nlen ks) with
+        | (evs, seq', count', ex) => (frames_at sid seq ks ++ se ++ evs, seq', count', ex)
+        end
+  end.
+
+Fixpoint agent_loop_a (ac : acct) (sid : N) (link : option N) (aok : ck -> bool) (stateless : bool)
+         (reqs : list req_out) (count seq : N) (prev followup : bool) : list ev * N * N * bool :=
+  if MAX_TOOL_CALLS <=? count then ([], seq, R_MAX_TOOL_CALLS, prev)
+  else if followup && negb stateless && negb prev then ([], seq, R_PROVIDER_ERROR, prev)
+  else
+    match reqs with
+    | [] =>
+        let ks := fst (stream_kinds (RHttpErr [] [])) in
+        (frames_at sid seq ks, seq + nlen ks, R_PROVIDER_ERROR, prev)
+    | r :: rest =>
+        let ks := fst (stream_kinds r) in
+        let evs0 := frames_at sid seq ks in
+        let seq1 := seq + nlen ks in
+        match r with
+        | ROk _ has_id calls =>
+            let prev' := has_id || prev in
+            match calls with
+            | [] => (evs0, seq1, R_COMPLETED, prev')
+            | _ :: _ =>
+                if negb prev' && negb stateless then (evs0, seq1, R_PROVIDER_ERROR, prev')
+                else
+                  match run_calls_a ac sid link aok calls count seq1 with
+                  | (evs1, seq2, count', ex) =>
+                      if ex then (evs0 ++ evs1, seq2, R_MAX_TOOL_CALLS, prev')
+                      else
+                        match agent_loop_a ac sid link aok stateless rest count' seq2 prev' true with
+                        | (evs2, seq3, reason, p) => (evs0 ++ evs1 ++ evs2, seq3, reason, p)
+                        end
+                  end
+            end
+        | _ =>
+            (evs0, seq1, match snd (stream_kinds r) with Some x => x | None => R_PROVIDER_ERROR end, prev)
+        end
+    end.
+
+(* the type of the provider loop as run_session uses it *)
+Definition loop_t : Type :=
+  N -> option N -> (ck -> bool) -> bool -> list req_out -> N -> N -> bool -> bool -> list ev * N * N * bool.
+
 (* ---------- run_session ---------- *)
 Inductive ck_res := CkCreatedOk | CkRewoundOk | CkFail.
 Definition ck_kind (r : ck_res) : sk :=
@@ -265,7 +333,7 @@ Fixpoint last_reason_from (sid : N) (l : list ev) (acc : N) : N :=
   end.
 Definition last_reason (sid : N) (l : list ev) : N := last_reason_from sid l R_UNKNOWN.
 
-Definition run_body (g : cfg) (sid : N) (link : option N) (aok : ck -> bool) (inp : input) : list ev :=
+Definition run_body_with (loop : loop_t) (g : cfg) (sid : N) (link : option N) (aok : ck -> bool) (inp : input) : list ev :=
   match inp with
   | ITool lock t =>
       let ks := tool_kinds t in
@@ -282,7 +350,7 @@ Definition run_body (g : cfg) (sid : N) (link : option N) (aok : ck -> bool) (in
              | Some mid => capp aok (CSelection sid mid) ++ capp aok (CCompiled sid)
              | None => []
              end)
-            ++ match agent_loop sid link aok (g_stateless g) reqs 0 1 false false with
+            ++ match loop sid link aok (g_stateless g) reqs 0 1 false false with
                | (evs, seq, reason, prev) =>
                    evs
                    ++ (if (reason =? R_COMPLETED) && prev
@@ -293,12 +361,34 @@ Definition run_body (g : cfg) (sid : N) (link : option N) (aok : ck -> bool) (in
         end
   end.
 
+Definition run_body : cfg -> N -> option N -> (ck -> bool) -> input -> list ev := run_body_with agent_loop.
+
 Definition run_session (g : cfg) (sid : N) (link : option N) (aok : ck -> bool) (inp : input) : list ev :=
   let evs := ES sid 0 SStarted :: run_body g sid link aok inp in
   evs ++ match link with
          | Some mid => capp aok (CRunEnded sid mid (last_reason sid evs))
          | None => []
          end.
+
+(* run_session with the budget accounting as a parameter (run_session_a ACCT = run_session: run_session_a_every) *)
+Definition run_session_a (ac : acct) (g : cfg) (sid : N) (link : option N) (aok : ck -> bool) (inp : input) : list ev :=
+  let evs := ES sid 0 SStarted :: run_body_with (agent_loop_a ac) g sid link aok inp in
+  evs ++ match link with
+         | Some mid => capp aok (CRunEnded sid mid (last_reason sid evs))
+         | None => []
+         end.
+
+(* provider requests a run made: its openresponses_request_started frames *)
+Definition is_reqk (k : sk) : bool := match k with SReqStarted => true | _ => false end.
+Definition is_req (e : ev) : bool := match e with ES _ _ k => is_reqk k | EC _ => false end.
+Definition nreq (l : list ev) : nat := length (filter is_req l).
+
+(* the stubborn model: answers EVERY request with one call of a function tool_choice refuses (fresh response id) *)
+Definition refused_call : call :=
+  {| c_allowed := false; c_lock := true; c_tool := {| t_auto := 0; t_res := TDone 0 0 |} |}.
+Definition refused_answer : req_out := ROk [false; false] true [refused_call].
+Definition is_refused_answer (r : req_out) : bool :=
+  match r with ROk _ _ [c] => negb (c_allowed c) | _ => false end.
 
 (* thread_post_message: append message (Err => 404, nothing else happens), create the session,
    append run_spawned (Err => 500, no task is spawned), spawn run_session *)
